@@ -46,6 +46,9 @@ type realApp struct {
 	// slowHeartbeat: ToAdmin takes this long for every outgoing Heartbeat (a slow application
 	// callback keeps the run loop busy while keep-alive timers expire)
 	slowHeartbeat time.Duration
+	// slowFromApp: every FromApp takes this long (a slow consumer: received messages queue up
+	// inside the engine); read under mu
+	slowFromApp time.Duration
 }
 
 func (a *realApp) OnCreate(quickfix.SessionID) {}
@@ -74,7 +77,11 @@ func (a *realApp) FromApp(m *quickfix.Message, _ quickfix.SessionID) quickfix.Me
 	id, _ := m.Body.GetString(11)
 	a.mu.Lock()
 	a.recv = append(a.recv, id)
+	slow := a.slowFromApp
 	a.mu.Unlock()
+	if slow > 0 {
+		time.Sleep(slow)
+	}
 	return nil
 }
 
@@ -654,6 +661,56 @@ func socketRun(t *testing.T, run int, file bool) (violation, inconclusive, detai
 		}
 		time.Sleep(2500 * time.Millisecond) // reconnect, Logon, ResendRequest, burst, reset inside it, reconnect
 	}
+	restarted := ""
+	if file && run%4 == 1 || file && run%4 == 3 {
+		// an engine is stopped and created again on the same file store while the other side still
+		// has a burst in flight towards it and its application consumes slowly: whatever the old
+		// engine still processes during its logout must be known to the new one
+		setSlow := func(a *realApp, d time.Duration) {
+			a.mu.Lock()
+			a.slowFromApp = d
+			a.mu.Unlock()
+		}
+		if run%4 == 1 {
+			restarted = "initiator"
+			setSlow(appA, 15*time.Millisecond)
+			for i := 0; i < 30; i++ {
+				sendFrom(idB, "B", &nB, &accB)
+			}
+			time.Sleep(time.Duration(10+20*(run%3)) * time.Millisecond)
+			stopBounded(ini.Stop)
+			ini2, err := quickfix.NewInitiator(appA, sfA, setA, quickfix.NewNullLogFactory())
+			if err != nil {
+				return "", "initiator-recreate", err.Error()
+			}
+			if err := ini2.Start(); err != nil {
+				return "", "initiator-restart", err.Error()
+			}
+			defer stopBounded(ini2.Stop)
+			setSlow(appA, 0)
+		} else {
+			restarted = "acceptor"
+			setSlow(appB, 15*time.Millisecond)
+			for i := 0; i < 30; i++ {
+				sendFrom(idA, "A", &nA, &accA)
+			}
+			time.Sleep(time.Duration(10+20*(run%3)) * time.Millisecond)
+			stopBounded(acc.Stop)
+			acc2, err := quickfix.NewAcceptor(appB, sfB, setB, quickfix.NewNullLogFactory())
+			if err != nil {
+				return "", "acceptor-recreate", err.Error()
+			}
+			if err := acc2.Start(); err != nil {
+				return "", "acceptor-restart", err.Error()
+			}
+			defer stopBounded(acc2.Stop)
+			setSlow(appB, 0)
+		}
+		for i := 0; i < 3; i++ {
+			sendFrom(idA, "A", &nA, &accA)
+			sendFrom(idB, "B", &nB, &accB)
+		}
+	}
 	// the link stays up now: wait until both sides have everything (bounded). A control timer
 	// tells a wedged engine (no progress although this process runs on time) from a stalled machine.
 	deadline := time.Now().Add(40 * time.Second)
@@ -683,7 +740,7 @@ func socketRun(t *testing.T, run int, file bool) (violation, inconclusive, detai
 	}
 	time.Sleep(300 * time.Millisecond)
 	gotB, gotA := get(appB), get(appA)
-	detail = fmt.Sprintf("A accepted %d, B received %d; B accepted %d, A received %d (file stores: %v)", len(accA), len(gotB), len(accB), len(gotA), file)
+	detail = fmt.Sprintf("A accepted %d, B received %d; B accepted %d, A received %d (file stores: %v; engine restarted on its store under load: %q)", len(accA), len(gotB), len(accB), len(gotA), file, restarted)
 	cmp := func(got, want []string, who string) string {
 		if strings.Join(got, ",") == strings.Join(want, ",") {
 			return ""
@@ -720,6 +777,12 @@ func TestC05_Sockets(t *testing.T) {
 		v, inc, detail := socketRun(t, run, run%2 == 1)
 		c.Eval()
 		c.Class("socket-run")
+		if strings.Contains(detail, `under load: "initiator"`) {
+			c.Class("socket-run:initiator-restarted-on-its-file-store-under-load")
+		}
+		if strings.Contains(detail, `under load: "acceptor"`) {
+			c.Class("socket-run:acceptor-restarted-on-its-file-store-under-load")
+		}
 		c.NonTrivial(stats.Hash("socket", run))
 		c.SampleClass("socket-run", detail)
 		if inc != "" {
